@@ -227,9 +227,10 @@ class MergeCut:
     mode 'init': check Inv at the real loop entry.  mode 'step': start from an arbitrary state satisfying Inv, run ONE
     iteration on a generic converted operand, check Inv again.  mode 'exit': arbitrary state, no operand left."""
 
-    def __init__(self, mode, cx, tr):
-        self.mode, self.cx, self.tr = mode, cx, tr
+    def __init__(self, mode, cx, tr, x=None):
+        self.mode, self.cx, self.tr, self.x = mode, cx, tr, x
         self.entered = False
+        self.child = None
 
     def one_sided(self, name, side):
         """a concrete Range clone that is one-sided on `side` ('low': low bound set, high is the wildcard)"""
@@ -240,14 +241,24 @@ class MergeCut:
             self.cx.assume(z3.And(r.low.fp == STAR, r.high.fp != STAR))
         return r
 
+    def roles(self, loc):
+        """the loop's state, found by what the variables hold at the loop head (not by name): the operation being built, the queue
+        of open ranges (an empty list), the side the queue is open on (None)"""
+        names = [n for n in loc if n != "self"]
+        self.v_new = rewrite.state_variable(loc, names, lambda v: isinstance(v, T.BaseOperation) and v is not self.x, "the operation being built")
+        self.v_queue = rewrite.state_variable(loc, names, lambda v: isinstance(v, list) and v == [], "the queue of ranges still open")
+        self.v_side = rewrite.state_variable(loc, [n for n in names if n not in (self.v_new, self.v_queue)],
+                                             lambda v: v is None, "the side the queue is open on")
+
     def enter(self, loc):
         self.entered = True
         cx = self.cx
+        self.roles(loc)
         if self.mode == "init":
-            nn = loc["new_node"]
+            nn = loc[self.v_new]
             raise PathStop([("C12-M/merge-loop/init: nothing consumed, no child, empty queue",
-                             len(nn.children) == 0 and loc["possible_ranges"] == [] and type(nn) is T.AndOperation)])
-        nn = loc["new_node"]
+                             len(nn.children) == 0 and loc[self.v_queue] == [] and type(nn) is T.AndOperation)])
+        nn = loc[self.v_new]
         self.nn = nn
         side_low = z3.Bool("queue_side_is_low")
         cx.register("queue_side_is_low", side_low)
@@ -283,7 +294,7 @@ class MergeCut:
             cx.assume(self.rest_den)
         self.children_before = tuple(nn.operands)
         cx.assume(self.den_children() == self.consumed)      # Inv
-        return {"possible_ranges": self.queue, "possible_ranges_bound_side": self.side}
+        return {self.v_queue: self.queue, self.v_side: self.side}
 
     def den_children(self):
         conj = [self.fixed_den, self.rest_den]
@@ -296,9 +307,9 @@ class MergeCut:
     def step(self, loc):
         if self.mode != "step":
             return
-        child = loc["child"]
-        q = loc["possible_ranges"]
-        side = loc["possible_ranges_bound_side"]
+        child = self.child
+        q = loc[self.v_queue]
+        side = loc[self.v_side]
         obls = []
         consumed2 = z3.And(self.consumed, self.child_den)
         obls.append(("C12-M/merge-loop/step: conjunction of the kept operands is equivalent to the consumed ones",
@@ -327,7 +338,7 @@ def merge_cases():
     def arrange(cx, mode, child_kind):
         x = T.AndOperation(pos=sym.SymInt(name="pos"), size=sym.SymInt(name="size"), head=SymStr(name="head"), tail=SymStr(name="tail"))
         tr = U.OpenRangeTransformer(merge_ranges=True, add_head=SymStr(name="add_head"))
-        cut = MergeCut(mode, cx, tr)
+        cut = MergeCut(mode, cx, tr, x)
 
         def fake_clone_children(node, new_node, context):
             # the operands, already converted (contract of the sub-term visits): generic element(s)
@@ -338,6 +349,7 @@ def merge_cases():
             else:
                 c = model.AbsNode("c", layout="none", classes=[k.__name__ for k in model.UNIVERSE if k is not T.Range])
             cut.child_den = den(c)
+            cut.child = c
             return iter([c])
         tr.clone_children = fake_clone_children
         return x, tr, cut
